@@ -74,7 +74,13 @@ class KaniProp:
         if args.only:
             mine = [i for i in mine if re.search(args.only, i.name)]
         rnd = random.Random(seed)
-        rnd.shuffle(mine)  # VERIF_SEED only permutes scheduling order
+        rnd.shuffle(mine)  # VERIF_SEED permutes scheduling order (and, for the thorough tier, which instances are selected)
+        self.not_selected = []
+        maxi = int(os.environ.get("VERIF_THOROUGH_MAX_INSTANCES", "150"))
+        if tier != "quick" and not args.only and len(mine) > maxi:
+            # Kani's code generation costs 2 - 7 s per harness: a run is limited to `maxi` instances, chosen by the seed
+            self.not_selected = ["%s: not selected under seed %s (VERIF_THOROUGH_MAX_INSTANCES=%d)" % (i.name, seed, maxi) for i in mine[maxi:]]
+            mine = mine[:maxi]
         if not mine:
             print("no harness instances for %s" % pid)
             return 2
@@ -116,7 +122,7 @@ class KaniProp:
             self._evidence(pid, tier, seed, mine, {}, t0, 0, [], ["build error"])
             return 2
         inconclusive = []
-        self.not_explored = []
+        self.not_explored = list(getattr(self, "not_selected", []))
         violations = []   # (inst, desc, replay_path)
         known = []
         kf = engine.load_known_findings()
